@@ -37,9 +37,10 @@ class Outcomes(object):
     """Outcome of an action execution as a pure function of its identity (task, item, attempt,
     loop key) and a seed, so twin runs and different schedules agree on what every action returns."""
 
-    def __init__(self, seed=0, p_fail=0.2, overrides=None, force=None):
+    def __init__(self, seed=0, p_fail=0.2, overrides=None, force=None, exotic=0.0):
         self.seed = seed
         self.p_fail = p_fail
+        self.exotic = exotic  # share of failures reported as timeout / abandoned instead of failed
         self.overrides = overrides or {}  # "task/item/attempt/loop" -> [status, result]
         self.force = force  # optional callable(ident) -> (status, result) | None
 
@@ -59,6 +60,8 @@ class Outcomes(object):
             return s, (r if r is not None else {"v": 1, "id": ident})
         x = h64(self.seed, "o", ident)
         status = "failed" if (x % 1000) / 1000.0 < self.p_fail else "succeeded"
+        if status == "failed" and self.exotic and ((x >> 20) % 100) < 100 * self.exotic:
+            status = ["timeout", "abandoned"][(x >> 28) % 2]
         return status, {"v": (x >> 12) % 2, "id": ident}
 
 
